@@ -81,11 +81,19 @@ inductive Prog where
   | monStart                     -- a monitor task before its first `sleep`
   | monLoop
   | closeEntry (c : Cont)        -- about to call `close()`
-  | closeBody (pc : Nat) (c : Cont)
-  | cbWait (k : Nat) (c : Cont)  -- inside the user's close callback, `k` more awaits to go
+  | inClose                      -- running `AsyncSession.close()`'s body: position is in `St.cstage`
   | vget
   | recvWait (u : Nat)
   | loginWait (u : Nat)
+  deriving DecidableEq, Repr, Inhabited
+
+/-- progress of the one and only execution of the close body (guarded by `_closed`) -/
+inductive CStage where
+  | idle                                   -- `_closed` is false
+  | body (t : Tid) (pc : Nat) (c : Cont)   -- task `t` is in the body, about to run / resume at stage `pc`
+  | cb (t : Tid) (k : Nat) (c : Cont)      -- transport closed; `t` is inside the user's close callback, `k` more awaits to go
+  | finished                               -- the close callback has returned (or there is none)
+  | aborted                                -- the *user* cancelled the task while it was inside the user's close callback
   deriving DecidableEq, Repr, Inhabited
 
 structure Cfg where
@@ -107,12 +115,19 @@ structure St where
   pingM : Bool := true
   buf : List Frame := []          -- complete frames in the reader buffer
   queue : List Nat := []          -- asyncio.Queue content
-  vres : Option Nat := none       -- result of the receive helper task
+  vres : Option Nat := none       -- message taken off the queue for a pending receive, not yet handed to the caller
+  rcvBusy : Bool := false         -- a `receive_msg()` / `login()` call has started and not yet returned
   status : Tid → Status := fun _ => .absent
   prog : Tid → Prog := fun _ => .idle
   imm : Option Tid := none        -- task that continues within the same real step
   trace : List Obs := []          -- observable events, oldest first
-  recvd : List Nat := []          -- ghost: messages taken off the wire by the reader (for C04)
+  cstage : CStage := .idle
+  -- ghost state (never read by the transitions)
+  wire : List Frame := []         -- every complete frame received so far
+  consumed : List Frame := []     -- frames the reader has taken out of its buffer
+  recvd : List Nat := []          -- messages the reader has put on the queue
+  lost : List Nat := []           -- messages dropped by a late cancel of a receive (known finding)
+  taken : List Nat := []          -- messages handed to a consumer: message callback entered, receive returned, login reply consumed
   deriving Inhabited
 
 inductive Ev where
@@ -229,7 +244,7 @@ def execClose (cfg : Cfg) (s : St) (t : Tid) (c : Cont) : Nat → Nat → St
       else
         -- cancel it and await it
         let s := s.cancelTask x
-        (s.setStatus t (.waitT x)).setProg t (.closeBody (pc + 1) c)
+        { (s.setStatus t (.waitT x)).setProg t .inClose with cstage := .body t (pc + 1) c }
     | none =>
       if pc = 5 then
         -- resumed after awaiting the reader task
@@ -237,14 +252,14 @@ def execClose (cfg : Cfg) (s : St) (t : Tid) (c : Cont) : Nat → Nat → St
       else
         -- pc = 6: transport.close(); user's close callback
         let s := s.emit .tclose
-        if !cfg.hasCb then runCont s t c
+        if !cfg.hasCb then runCont { s with cstage := .finished } t c
         else
           let s := s.emit .cbEnter
           match cfg.cbBeh with
-          | .await k => (s.setStatus t .ready).setProg t (.cbWait k c)
-          | _ => runCont (s.emit .cbExit) t c     -- `close()` / `initiate_close()` inside the callback: guards → nothing
+          | .await k => { (s.setStatus t .ready).setProg t .inClose with cstage := .cb t k c }
+          | _ => runCont { (s.emit .cbExit) with cstage := .finished } t c   -- `close()` / `initiate_close()` inside the callback: guards → nothing
 
-/-- resuming `closeBody pc` after the awaited task finished: stage bookkeeping, then go on -/
+/-- resuming the close body at stage `pc` after the awaited task finished: stage bookkeeping, then go on -/
 def resumeClose (cfg : Cfg) (s : St) (t : Tid) (pc : Nat) (c : Cont) : St :=
   let s := if pc = 1 then { s with dispSet := false } else s
   execClose cfg s t c 8 pc
@@ -252,7 +267,27 @@ def resumeClose (cfg : Cfg) (s : St) (t : Tid) (pc : Nat) (c : Cont) : St :=
 /-- `await self.close()` called by task `t` -/
 def enterClose (cfg : Cfg) (s : St) (t : Tid) (c : Cont) : St :=
   if s.closed then runCont s t c
-  else execClose cfg { s with closed := true } t c 8 0
+  else execClose cfg { s with closed := true, cstage := .body t 0 c } t c 8 0
+
+/-- task `t`, whose program is `inClose`, runs (`cancelledNow`: a user cancelled it meanwhile) -/
+def stepInClose (cfg : Cfg) (s : St) (t : Tid) (cancelledNow : Bool) : St :=
+  match s.cstage with
+  | .body t' pc c =>
+      -- resumed after the awaited task ended; a user's cancellation landing here is swallowed by
+      -- `stop_task` (`except CancelledError: pass`)
+      if t' = t then resumeClose cfg (s.setStatus t .ready) t pc c else s
+  | .cb t' k c =>
+      if t' = t then
+        if cancelledNow then
+          -- cancelled inside the user's own close callback: the cancellation propagates out of `close()`
+          match c with
+          | .userTail u _ => ({ s with cstage := .aborted }.emit (.ret u .cancelled)).finish t
+          | _ => { s with cstage := .aborted }.finish t
+        else match k with
+          | 0 => runCont { (s.emit .cbExit) with cstage := .finished } t c
+          | k + 1 => { s with cstage := .cb t k c }
+      else s
+  | _ => s
 
 /-! ### task steps -/
 
@@ -262,28 +297,30 @@ def stepReader (cfg : Cfg) (s : St) : St :=
   else match s.buf with
     | [] => s
     | f :: rest =>
-      let s := { s with buf := rest }
+      let s := { s with buf := rest, consumed := s.consumed ++ [f] }
       match f with
       | .msg n => { s with recvd := s.recvd ++ [n] }.put n
       | .hb => s
       | .logout => enterClose cfg s .R .readerTail
       | .bad => enterClose cfg s .R .readerTail
 
+/-- the dispatcher has taken message `n` and entered the message callback -/
+def dispHandle (cfg : Cfg) (s : St) (n : Nat) : St :=
+  match cfg.msgBeh n with
+  | .ret => { (s.emit (.msgExit n)) with imm := some .D }
+  | .await k => s.setProg .D (.handler n k)
+  | .close => enterClose cfg s .D (.handlerTail n)
+  | .iclose => { ((s.initiateClose).emit (.msgExit n)) with imm := some .D }
+  | .raise => { (s.emit (.msgRaise n)) with imm := some .D }
+  | .accept => { (((s.emit (.write .reply)).startHeartbeats).emit (.msgExit n)) with imm := some .D }
+  | .reject => enterClose cfg (s.emit (.write .reply)) .D (.handlerTail n)
+
 /-- the dispatcher takes one message (or suspends / ends) -/
 def stepDisp (cfg : Cfg) (s : St) : St :=
   if s.qClosed then s.finish .D
   else match s.queue with
     | [] => s.setStatus .D .waitQ
-    | n :: q =>
-      let s := ({ s with queue := q }).emit (.msgEnter n)
-      match cfg.msgBeh n with
-      | .ret => { (s.emit (.msgExit n)) with imm := some .D }
-      | .await k => s.setProg .D (.handler n k)
-      | .close => enterClose cfg s .D (.handlerTail n)
-      | .iclose => { ((s.initiateClose).emit (.msgExit n)) with imm := some .D }
-      | .raise => { (s.emit (.msgRaise n)) with imm := some .D }
-      | .accept => { (((s.emit (.write .reply)).startHeartbeats).emit (.msgExit n)) with imm := some .D }
-      | .reject => enterClose cfg (s.emit (.write .reply)) .D (.handlerTail n)
+    | n :: q => dispHandle cfg (({ s with queue := q, taken := s.taken ++ [n] }).emit (.msgEnter n)) n
 
 /-- a heartbeat monitor tick -/
 def stepMon (cfg : Cfg) (s : St) (isLocal : Bool) : St :=
@@ -293,6 +330,23 @@ def stepMon (cfg : Cfg) (s : St) (isLocal : Bool) : St :=
   else
     if s.pingM then { s with pingM := false }
     else enterClose cfg s .M .monitorTail          -- on_no_activity = `self.close`
+
+/-- `login()` resumes after its receive: the reply (or the failure of the receive) is examined -/
+def loginResume (cfg : Cfg) (s : St) (t : Tid) (u : Nat) : St :=
+  match s.vres with
+  | some n =>
+      let s := { s with vres := none, rcvBusy := false, taken := s.taken ++ [n] }
+      if n = 0 && !(s.closed || s.closingTask) then
+        -- accepted: heartbeats, dispatching, return the session
+        (((s.startHeartbeats).startDispatching cfg).emit (.ret u .ok)).finish t
+      else
+        -- rejected, or the session was closed / is closing while the reply was delivered (f58394d)
+        enterClose cfg s t (.userTail u .refused)
+  | none =>
+      if s.qClosed then
+        -- EndOfQueue: soup lets it propagate (connect_async maps it), FIX closes first (guard: already closed)
+        ({ s with rcvBusy := false }.emit (.ret u .refused)).finish t
+      else enterClose cfg { s with rcvBusy := false } t (.userTail u .cancelled)    -- the caller was cancelled: close, then re-raise
 
 def stepRun (cfg : Cfg) (s : St) (t : Tid) : St :=
   let s := { s with imm := none }
@@ -305,21 +359,14 @@ def stepRun (cfg : Cfg) (s : St) (t : Tid) : St :=
     | .recvWait u =>
         -- `except CancelledError` in `_blocking_read`: EndOfQueue if the queue was stopped meanwhile, else re-raise.
         -- Late cancel (the helper already holds a message): the caller gets the cancellation, the message is lost.
-        if s.vres.isNone && s.qClosed then (s.emit (.ret u .eoq)).finish t
-        else ({ s with vres := none }.emit (.ret u .cancelled)).finish t
+        if s.vres.isNone && s.qClosed then ({ s with rcvBusy := false }.emit (.ret u .eoq)).finish t
+        else ({ s with vres := none, rcvBusy := false, lost := s.lost ++ s.vres.toList }.emit (.ret u .cancelled)).finish t
     | .loginWait u =>
-        if s.vres.isNone && s.qClosed then (s.emit (.ret u .refused)).finish t
+        if s.vres.isNone && s.qClosed then ({ s with rcvBusy := false }.emit (.ret u .refused)).finish t
         else
           -- `login()`: `except CancelledError: await self.close(); raise`
-          enterClose cfg ({ s with vres := none }.setStatus t .ready) t (.userTail u .cancelled)
-    | .closeBody pc c =>
-        -- a user cancelled a task that is awaiting another task inside `stop_task`: `except CancelledError: pass`
-        resumeClose cfg (s.setStatus t .ready) t pc c
-    | .cbWait _ c =>
-        -- cancelled inside the user's own close callback: the cancellation propagates out of `close()`
-        match c with
-        | .userTail u _ => (s.emit (.ret u .cancelled)).finish t
-        | _ => s.finish t
+          enterClose cfg ({ s with vres := none, rcvBusy := false, lost := s.lost ++ s.vres.toList }.setStatus t .ready) t (.userTail u .cancelled)
+    | .inClose => stepInClose cfg s t true
     | _ => s.finish t                                          -- reader / dispatcher / monitors end
   | .ready =>
     match s.prog t with
@@ -332,11 +379,7 @@ def stepRun (cfg : Cfg) (s : St) (t : Tid) : St :=
     | .monStart => s.setProg t .monLoop
     | .monLoop => if t = .L then stepMon cfg s true else if t = .M then stepMon cfg s false else s
     | .closeEntry c => enterClose cfg s t c
-    | .closeBody pc c => resumeClose cfg s t pc c
-    | .cbWait k c =>
-        match k with
-        | 0 => runCont (s.emit .cbExit) t c
-        | k + 1 => s.setProg t (.cbWait k c)
+    | .inClose => stepInClose cfg s t false
     | .vget =>
         match s.queue with
         | [] => s.setStatus t .waitQ
@@ -344,26 +387,12 @@ def stepRun (cfg : Cfg) (s : St) (t : Tid) : St :=
     | .recvWait u =>
         -- woken because the helper task finished
         match s.vres with
-        | some n => ({ s with vres := none }.emit (.ret u (.msg n))).finish t
+        | some n => ({ s with vres := none, rcvBusy := false, taken := s.taken ++ [n] }.emit (.ret u (.msg n))).finish t
         | none =>
             -- the helper was cancelled: by `queue.stop()` (→ EndOfQueue) or because the caller was
-            if s.qClosed then (s.emit (.ret u .eoq)).finish t
-            else (s.emit (.ret u .cancelled)).finish t
-    | .loginWait u =>
-        match s.vres with
-        | some n =>
-            let s := { s with vres := none }
-            if n = 0 && !(s.closed || s.closingTask) then
-              -- accepted: heartbeats, dispatching, return the session
-              (((s.startHeartbeats).startDispatching cfg).emit (.ret u .ok)).finish t
-            else
-              -- rejected, or the session was closed / is closing while the reply was delivered (f58394d)
-              enterClose cfg s t (.userTail u .refused)
-        | none =>
-            if s.qClosed then
-              -- EndOfQueue: soup lets it propagate (connect_async maps it), FIX closes first (guard: already closed)
-              (s.emit (.ret u .refused)).finish t
-            else enterClose cfg s t (.userTail u .cancelled)    -- the caller was cancelled: close, then re-raise
+            if s.qClosed then ({ s with rcvBusy := false }.emit (.ret u .eoq)).finish t
+            else ({ s with rcvBusy := false }.emit (.ret u .cancelled)).finish t
+    | .loginWait u => loginResume cfg s t u
     | .idle => s
   | _ => s
 
@@ -373,37 +402,44 @@ def runnable (s : St) (t : Tid) : Bool :=
 
 /-- `receive_msg()` / the receive inside `login()` started by user task `u` -/
 def startRecv (s : St) (u : Nat) (isLogin : Bool) : St :=
-  if s.dispSet then (s.emit (.ret u .state)).setStatus (.U u) .done
+  if s.rcvBusy || alive (s.status .V) then s   -- a receive is already pending: two concurrent receives are API misuse, outside the model
+  else if s.dispSet then (s.emit (.ret u .state)).setStatus (.U u) .done
   else match s.queue with
     | n :: q =>
         -- get_nowait succeeds: no helper task
-        let s := { s with queue := q, vres := some n, imm := some (.U u) }
+        let s := { s with queue := q, vres := some n, rcvBusy := true, imm := some (.U u) }
         (s.setStatus (.U u) .ready).setProg (.U u) (if isLogin then .loginWait u else .recvWait u)
     | [] =>
         if s.qClosed then
           if isLogin then (s.emit (.ret u .refused)).setStatus (.U u) .done
           else (s.emit (.ret u .eoq)).setStatus (.U u) .done
         else
-          let s := s.spawn .V .vget
+          let s := ({ s with rcvBusy := true }).spawn .V .vget
           (s.setStatus (.U u) (.waitT .V)).setProg (.U u) (if isLogin then .loginWait u else .recvWait u)
 
 def step (cfg : Cfg) (s : St) : Ev → St
   | .connect =>
-      let s := s.spawn .R .readerLoop
-      if cfg.dispatchOnConnect then s.startDispatching cfg else s
-  | .data fs => { s with buf := s.buf ++ fs, pingM := true }
+      if s.status .R != .absent || s.closed then s      -- a transport connects once
+      else
+        let s := s.spawn .R .readerLoop
+        if cfg.dispatchOnConnect then s.startDispatching cfg else s
+  | .data fs => { s with buf := s.buf ++ fs, wire := s.wire ++ fs, pingM := true }
   | .eof => s.initiateClose
   | .run t => if runnable s t then stepRun cfg s t else s
-  | .callClose u => enterClose cfg (s.setStatus (.U u) .ready) (.U u) (.userTail u .ok)
+  | .callClose u =>
+      if s.status (.U u) != .absent then s      -- every user call runs in a fresh task
+      else enterClose cfg (s.setStatus (.U u) .ready) (.U u) (.userTail u .ok)
   | .callInitiateClose => s.initiateClose
   | .callLogout => ({ (s.emit (.write .logout)) with pingL := true }).initiateClose
-  | .callRecv u => startRecv s u false
+  | .callRecv u => if s.status (.U u) != .absent then s else startRecv s u false
   | .callRecvNowait u =>
       if s.dispSet then s.emit (.ret u .state)
       else match s.queue with
-        | n :: q => { s with queue := q }.emit (.ret u (.msg n))
+        | n :: q => { s with queue := q, taken := s.taken ++ [n] }.emit (.ret u (.msg n))
         | [] => if s.qClosed then s.emit (.ret u .eoq) else s.emit (.ret u .none)
-  | .callLogin u => startRecv ({ (s.emit (.write .login)) with pingL := true }) u true
+  | .callLogin u =>
+      if s.status (.U u) != .absent || s.rcvBusy || alive (s.status .V) then s
+      else startRecv ({ (s.emit (.write .login)) with pingL := true }) u true
   | .callSend => { (s.emit (.write .data)) with pingL := true }
   | .cancel u => s.cancelTask (.U u)
 
